@@ -948,6 +948,10 @@ def generate(repo):
     def lstsq_fact():
         # the returned expression with every local expanded: local names, temporaries and the unpacking style do not matter
         fn = get_def(ini, 'lstsq')
+        # a solve of the (k, k) normal equations squares the condition number: recognised and wrong
+        for bad in ('np.linalg.solve', 'np.linalg.inv', 'np.linalg.cholesky', 'linalg.solve', 'linalg.cho_solve', 'linalg.cho_factor'):
+            if find_calls(fn, bad):
+                return False
         paths = SymEx(ini).run(fn)
         if len(paths) != 1 or paths[0].kind != 'return' or paths[0].events:
             return None
